@@ -485,9 +485,9 @@ THEOREMS["C01"] = [
     "Pest.run_gen", "Pest.step_gen", "Pest.rule_gen", "Pest.popAllLoop_full", "Pest.srel_restore", "Pest.srel_ok",
     "Pest.run_good", "Pest.Tables.expression_classes_covered", "Pest.Tables.special_builtins_match",
 ]
-THEOREMS["C02_pending"] = ["Pest.C02." + t for t in (
-    "wf_of_check optimizer_sound optimized_skip_total optimizer_sound_expr optimizer_sound_noskip parse_eq_run opt_interp_agrees "
-    "opt_interp_vs_plain optgen_agrees").split()] + [
+THEOREMS["C02"] = ["Pest.C02." + t for t in (
+    "wf_of_check optimizer_sound optimized_skip_total optimizer_sound_expr optimizer_preserves_termination optimizer_keeps_signature "
+    "optimizer_keeps_soiFree parse_eq_run opt_interp_agrees opt_interp_vs_plain optgen_agrees").split()] + [
     "Pest.OptS.optimize_sound", "Pest.OptS.wfCheck_sound", "Pest.Tables.default_passes_match", "Pest.L0.run_mono"]
 THEOREMS["C03"] = [
     "Pest.C03.interp_refines_spec", "Pest.C03.parse_agrees_with_spec", "Pest.C03.interp_exc_only_undefined",
@@ -504,12 +504,16 @@ THEOREMS["C04"] = [
     "Pest.C04.trivia_pairs_where_matched",
     "Pest.Tables.modifier_bits_match", "Pest.Tables.modifier_symbols_match", "Pest.Tables.default_passes_match",
     "Pest.Tables.expression_classes_covered", "Pest.Tables.special_builtins_match",
+    "Pest.C01.generated_parse_eq", "Pest.C02.optimizer_sound", "Pest.C02.opt_interp_agrees", "Pest.C02.optgen_agrees",
+    "Pest.C02.optimized_skip_total",
 ]
 THEOREMS["C05"] = [
     "Pest.C05.push_spec", "Pest.C05.push_literal_spec", "Pest.C05.peek_spec", "Pest.C05.pop_spec", "Pest.C05.drop_spec",
     "Pest.C05.peek_all_spec", "Pest.C05.pop_all_spec", "Pest.C05.peek_slice_spec", "Pest.C05.matchAll_cons",
     "Pest.C05.stack_ops_never_raise", "Pest.C05.failed_op_is_identity", "Pest.C03.interp_refines_spec",
     "Pest.DStack.abs_apply", "Pest.DStack.inv_apply", "Pest.popAllLoop_rel",
+    "Pest.C01.generated_parse_eq", "Pest.C01.gen_no_exc", "Pest.C02.optimizer_sound", "Pest.C02.opt_interp_agrees", "Pest.C02.optgen_agrees",
+    "Pest.C02.optimized_skip_total",
 ]
 THEOREMS["C06"] = ["Pest.C06." + t for t in (
     "spec_tree_wf spec_parse_tree_wf wf_unfolded wf_ordered wf_flat wf_closure wf_checker_sound allPairs_reading reach_is_syntactic "
@@ -1154,6 +1158,35 @@ def open_finding_keys(prop: str) -> set:
     return keys
 
 
+NULLABLE_TRIVIA_WITNESS = {"grammar": 'WHITESPACE = _{ "" | " " }\nr = { "a" ~ "b" }', "rule": "r", "input": "a b"}
+
+
+def replay_known_nullable_trivia() -> str | None:
+    """known finding nullable-trivia-diverges (C02): does the recorded witness still behave that way?"""
+    w = NULLABLE_TRIVIA_WITNESS
+    old = signal.signal(signal.SIGALRM, _alarm)
+    res = []
+    try:
+        for opt in (None, mk_optimizer(list(PASS_NAMES))):
+            signal.alarm(3)
+            try:
+                res.append(run_struct(P.make_parser(w["grammar"], opt).parse, w["rule"], w["input"], 0)[0])
+            except Timeout:
+                res.append("timeout")
+            finally:
+                signal.alarm(0)
+    except Exception:  # noqa: BLE001
+        return None
+    finally:
+        signal.signal(signal.SIGALRM, old)
+    if res[0] == "timeout" and res[1] != "timeout":
+        return ("key=nullable-trivia-diverges a WHITESPACE/COMMENT rule that can match the empty string makes the un-optimized "
+                "parse_trivia loop forever, while the fused SKIP regex of the default optimizer stops: "
+                "WHITESPACE = _{ \"\" | \" \" } r = { \"a\" ~ \"b\" } on \"a b\" does not return with optimizer=None and raises "
+                "PestParsingError with the default optimizer")
+    return None
+
+
 def tag_only_difference(f: dict) -> bool:
     """region of the known finding `tag-lost-on-backtrack`: the grammar writes a tag and the two
     results are equal once tags are erased"""
@@ -1304,6 +1337,10 @@ def run_prop(out: Outcome, level_when_proved: str = "proof") -> None:
                 kept.append(f)
         direct = kept
         msg = replay_known_tag_finding(prop)
+        if msg:
+            out.known.append(msg)
+    if prop == "C02" and "nullable-trivia-diverges" in open_finding_keys(prop):
+        msg = replay_known_nullable_trivia()
         if msg:
             out.known.append(msg)
     for f in direct:
